@@ -1,6 +1,6 @@
 (* C19 — vacuum never discards a version that recorded a real change. *)
 From Continuum Require Import Model.Base Model.VTable Model.Vacuum
-     Proofs.BaseP Proofs.VTableP Proofs.VacuumP Gen.VacuumGen Proofs.VacuumGenP.
+     Proofs.BaseP Proofs.VTableP Proofs.VacuumP Gen.VacuumGen Proofs.VacuumGenP Proofs.VacuumIdemP.
 
 (* a deleted row is identical to the nearest earlier surviving row of the same entity *)
 Theorem C19_only_redundant_rows_deleted : forall t d,
@@ -49,6 +49,12 @@ Theorem C19_code_pass_sorted : forall t d,
   pk_unique t -> (In d (gen_vacuum_deleted (sort_tx t)) <-> In d (vacuum_deleted t)).
 Proof. exact gen_vacuum_sorted_is_model. Qed.
 
+(* a second vacuum finds nothing to delete: every row it would discard was already gone, so what
+   the first run kept is exactly the rows that record a change (no hypothesis beyond the primary key) *)
+Theorem C19_second_vacuum_deletes_nothing : forall t,
+  pk_unique t -> vacuum_deleted (vacuum t) = [] /\ vacuum (vacuum t) = vacuum t.
+Proof. intros t U. split; [exact (vacuum_deleted_vacuum t U) | exact (vacuum_idempotent t U)]. Qed.
+
 (* non-vacuity: A, B, A, A for entity 1 (first version an UPDATE) interleaved with entity 2 *)
 Definition C19_ex : vtable :=
   [ mkv [1] 1 None 1 [Some 5] []; mkv [2] 2 None 0 [Some 5] []; mkv [1] 3 None 1 [Some 6] [];
@@ -72,6 +78,7 @@ Print Assumptions C19_first_kept.
 Print Assumptions C19_changed_kept.
 Print Assumptions C19_as_of_preserved.
 Print Assumptions C19_vacuum_is_survivors.
+Print Assumptions C19_second_vacuum_deletes_nothing.
 Print Assumptions C19_code_pass_is_model.
 Print Assumptions C19_code_pass_sorted.
 Print Assumptions C19_example.
